@@ -2,6 +2,9 @@ import CogentModel.Json
 import CogentModel.Model.Splitlines
 import CogentModel.Model.SeqFormats
 import CogentModel.Spec.FastaText
+import CogentModel.Model.Suffixes
+import CogentModel.Gen.C06Dispatch
+import CogentModel.Model.GenBankLoc
 import CogentModel.Spec.SeqRecords
 open CogentModel CogentModel.Splitlines CogentModel.SeqFormats
 
@@ -38,6 +41,32 @@ def handle (cmd : String) (j : J) : Except String J :=
   match cmd with
   | "splitlines" => do pure (linesJ (pySplitlines (← getStr j "text")))
   | "iter" => do pure (linesJ (iterSplitlines (← getLines j "chunks")))
+  | "gb_location" => do
+    -- parse_location_line: parts (start, stop+1, strand), get_coordinates(), strand
+    match GenBank.parseLocation (← getStr j "text") with
+    | .error e => pure (J.obj [("err", J.str (errStr e))])
+    | .ok parts =>
+      pure (J.obj [("parts", J.arr (parts.map fun s => J.arr [J.num (s.first - 1), J.num s.second, J.num s.strand])),
+                   ("coords", J.arr ((GenBank.getCoordinates parts).map fun p => J.arr [J.num p.1, J.num p.2])),
+                   ("strand", exJ J.num (GenBank.listStrand parts))])
+  | "gb_records" => do
+    pure (exJ recsJ (GenBank.gbRecords (← getStr j "text")))
+  | "suffixes" => do
+    let name ← getStr j "name"
+    let u ← getStr j "uuid"
+    let hs ← (← j.get "has_suffix").toBool
+    let sx := Suffixes.suffixesOf name
+    let optJ : Option (List Char) → J := fun o => match o with
+      | none => J.null
+      | some x => strJ x
+    let fmt := Suffixes.formatSuffixes Gen.C06Dispatch.compressionSuffixes hs sx
+    pure (J.obj [("suffixes", linesJ sx), ("tmp", strJ (Suffixes.tmpName u name)),
+                 ("format", match fmt with
+                    | .ok (a, b) => J.arr [optJ a, optJ b]
+                    | .error _ => J.obj [("err", J.str "IndexError")]),
+                 ("codec", match fmt with
+                    | .ok (_, b) => optJ (Suffixes.codecOf Gen.C06Dispatch.codecTable b)
+                    | .error _ => J.null)])
   | "general" => do
     -- Spec/FastaText: the text, well-formedness and expected records of a structured general FASTA file
     let parseTerm (t : String) : Except String FastaText.Term :=
